@@ -80,7 +80,9 @@ def roundtrip_case(ctx, rng, wd, i):
         if not ctx.check("roundtrip_header", isinstance(hdr, str) and hdr.endswith("\n"), "write_dump_header/type", "header is not a newline-terminated string"):
             return
         pb = np.array([[float("%.6f" % v) for v in row] for row in bounds])     # what the header prints
-        pos = pb[:, 0] + rng.random((N, d)) * (pb[:, 1] - pb[:, 0]) * 0.999 + 1e-7
+        # strictly inside the printed bounds, also after the %.8g rounding of the atom lines (a coordinate outside would be wrapped
+        # by the reader, which is the reader's documented behaviour, not a round-trip error)
+        pos = pb[:, 0] + (0.002 + 0.996 * rng.random((N, d))) * (pb[:, 1] - pb[:, 0])
         types = rng.integers(1, 5, size=N)
         extra = rng.normal(size=(N, nextra)) * 10.0 ** rng.integers(-3, 4)
         ptok = [["%.8g" % v for v in row] for row in pos]
